@@ -38,7 +38,7 @@ type outcome struct {
 	steps    int
 }
 
-func execute(sc c12body.Scenario, ch *explore.Chooser, accessPoints bool) outcome {
+func execute(sc c12body.Scenario, ch *explore.Chooser, accessPoints bool, stmtPoints ...bool) outcome {
 	env.Exec++
 	// executions must be independent: empty the library's package-level registries and caches
 	zzvsync.ResetAll()
@@ -49,6 +49,7 @@ func execute(sc c12body.Scenario, ch *explore.Chooser, accessPoints bool) outcom
 	zzvsync.ResetPools()
 	s := zzvsync.NewScheduler(func(label string, n int) int { return ch.Choose(label, n) })
 	s.AccessPoints = accessPoints
+	s.StmtPoints = len(stmtPoints) > 0 && stmtPoints[0]
 	obs := make([]c12body.Obs, sc.Threads)
 	for i := 0; i < sc.Threads; i++ {
 		i := i
@@ -94,7 +95,8 @@ func obsKey(o outcome) string {
 	return strings.Join(ps, " | ")
 }
 
-func runScenario(c *fw.Ctx, sc c12body.Scenario, bound int, accessPoints bool, maxExec int64) {
+func runScenario(c *fw.Ctx, sc c12body.Scenario, bound int, accessPoints bool, maxExec int64, stmtPoints ...bool) {
+	stmt := len(stmtPoints) > 0 && stmtPoints[0]
 	old := debug.SetGCPercent(-1)
 	defer debug.SetGCPercent(old)
 	outcomes := map[string]bool{}
@@ -115,10 +117,10 @@ func runScenario(c *fw.Ctx, sc c12body.Scenario, bound int, accessPoints bool, m
 			runtime.GC() // between executions only: no address is reused while an execution's shadow state is alive
 		}
 		c.Begin(locus, sc.Name)
-		o := execute(sc, ch, accessPoints)
+		o := execute(sc, ch, accessPoints, stmt)
 		outcomes[obsKey(o)] = true
 		desc := fmt.Sprintf("scenario %q schedule %v", sc.Name, ch.Taken)
-		det := map[string]interface{}{"scenario": sc.Name, "schedule": fmt.Sprint(ch.Taken), "labels": fmt.Sprint(ch.Labels), "access_points": accessPoints}
+		det := map[string]interface{}{"scenario": sc.Name, "schedule": fmt.Sprint(ch.Taken), "labels": fmt.Sprint(ch.Labels), "access_points": accessPoints, "statement_points": stmt}
 		switch {
 		case o.pan != nil:
 			c.Violation("panic:"+fw.PanicClass(o.pan)+"|"+locus, fmt.Sprintf("panic %v in %s — %s", o.pan, o.site, desc), det)
@@ -127,7 +129,7 @@ func runScenario(c *fw.Ctx, sc c12body.Scenario, bound int, accessPoints bool, m
 		}
 		for _, r := range o.races {
 			// re-execute the same schedule: a report that does not reproduce identically is a harness artefact
-			again := execute(sc, explore.NewChooser(ch.Taken), accessPoints)
+			again := execute(sc, explore.NewChooser(ch.Taken), accessPoints, stmt)
 			rep := false
 			for _, r2 := range again.races {
 				if r2.Site1 == r.Site1 && r2.Site2 == r.Site2 {
@@ -169,7 +171,7 @@ func runScenario(c *fw.Ctx, sc c12body.Scenario, bound int, accessPoints bool, m
 	if len(outcomes) == 1 {
 		collide = "single outcome"
 	}
-	c.Sample(map[string]interface{}{"scenario": sc.Name, "preemption_bound": bound, "access_hooks_are_scheduling_points": accessPoints, "schedules": st.Executions, "choice_points": st.ChoicePoints, "max_points_in_a_schedule": st.MaxDepth, "distinct_outcomes": len(outcomes), "note": collide})
+	c.Sample(map[string]interface{}{"scenario": sc.Name, "preemption_bound": bound, "access_hooks_are_scheduling_points": accessPoints, "statements_are_scheduling_points": stmt, "schedules": st.Executions, "choice_points": st.ChoicePoints, "max_points_in_a_schedule": st.MaxDepth, "distinct_outcomes": len(outcomes), "note": collide})
 }
 
 type task struct {
@@ -194,6 +196,12 @@ func tasks(tier string) []task {
 			b2 = 2
 		}
 		ts = append(ts, task{sc.Name + " [sync+access points]", func(c *fw.Ctx) { runScenario(c, sc, b2, true, cap) }})
+		// the construction scenarios once more with EVERY statement of the library as a scheduling point (one
+		// preemption): publish-before-initialise and check-then-act windows inside unsynchronised code
+		switch id := strings.Fields(sc.Name)[0]; {
+		case id == "S1" || id == "S2" || id == "S8" || id == "S9" || id == "S6c" || id == "S3" || tier == "thorough":
+			ts = append(ts, task{sc.Name + " [statement points]", func(c *fw.Ctx) { runScenario(c, sc, 1, true, cap, true) }})
+		}
 	}
 	return ts
 }
@@ -270,7 +278,7 @@ func init() {
 			if tier == "thorough" {
 				b, b2 = 3, 2
 			}
-			return fmt.Sprintf("the library is rebuilt with its sync import replaced by a cooperative-scheduler shim and with generated Access hooks (before every statement touching a package-level variable, at entry of every pointer-receiver method, classified read/write); 13 scenarios of three threads (one of two) that collide on every piece of shared state (Register ∥ Codec+decode ×2; RegisterSchema ∥ SchemaForType ∥ NewEncoderFor; Register(T1) ∥ Register(T2) ∥ build with a final both-in-effect check; shared-codec decode ×3 with pooled banks, closing at once or keeping banks open; shared-codec encode ×3 incl. map iteration; ReadFile ×2 + a third thread closing banks handed over through a channel; timestamp decode ×3 with the same / different / X,Y,Y not-yet-cached zone offsets; a registered builder that re-enters the codec builder ∥ Register of another type (RWMutex modelled with writer preference: readers queue behind an announced writer); ReadFile abandoned from a callback that closed its bank, then shared-codec decode ×2 (two threads); a mix) are explored over ALL schedules with at most %d preemptions where every Lock/Unlock/RLock/RUnlock/Pool.Get/Pool.Put/channel operation is a scheduling point and every Pool.Get answer a choice, and again with every Access hook as an additional scheduling point with at most %d preemptions; per schedule: vector-clock happens-before check of all hooked accesses (lock release→acquire, pool put→get, channel send→recv edges), deadlock detection, and comparison of every thread's observation with what a sequential order allows; auxiliary: the same bodies free-running on 16 goroutines under Go's race detector; distinct_nontrivial = schedules executed", b, b2)
+			return fmt.Sprintf("the library is rebuilt with its sync import replaced by a cooperative-scheduler shim and with generated Access hooks (before every statement touching a package-level variable, at entry of every pointer-receiver method, classified read/write); 13 scenarios of three threads (one of two) that collide on every piece of shared state (Register ∥ Codec+decode ×2; RegisterSchema ∥ SchemaForType ∥ NewEncoderFor; Register(T1) ∥ Register(T2) ∥ build with a final both-in-effect check; shared-codec decode ×3 with pooled banks, closing at once or keeping banks open; shared-codec encode ×3 incl. map iteration; ReadFile ×2 + a third thread closing banks handed over through a channel; timestamp decode ×3 with the same / different / X,Y,Y not-yet-cached zone offsets; a registered builder that re-enters the codec builder ∥ Register of another type (RWMutex modelled with writer preference: readers queue behind an announced writer); ReadFile abandoned from a callback that closed its bank, then shared-codec decode ×2 (two threads); a mix) are explored over ALL schedules with at most %d preemptions where every Lock/Unlock/RLock/RUnlock/Pool.Get/Pool.Put/channel operation is a scheduling point and every Pool.Get answer a choice, and again with every Access hook as an additional scheduling point with at most %d preemptions, and — for the construction scenarios, the shared-codec decode and the X,Y,Y zone scenario (all scenarios in thorough) — once more with EVERY statement of the library a scheduling point (generated statement hooks, one preemption), so that publish-before-initialise and check-then-act windows inside unsynchronised code are interleaved; sync.Once and sync.Map are shimmed as well (scheduling points, happens-before edges, state dropped between executions), package-level variables are restored before every execution to their values after package initialisation; per schedule: vector-clock happens-before check of all hooked accesses (lock release→acquire, pool put→get, channel send→recv edges), deadlock detection, and comparison of every thread's observation with what a sequential order allows; auxiliary: the same bodies free-running on 16 goroutines under Go's race detector; distinct_nontrivial = schedules executed", b, b2)
 		},
 		Assumptions: []string{
 			"sequentially consistent interleavings at the granularity of synchronisation operations (and of instrumented accesses in the second pass); weak-memory effects are outside the model",
